@@ -67,3 +67,14 @@ def npc_exact(pvalues, distr, name, plus1):
     ge = sum(1 for r in P if f(r) >= obs)
     amb = sum(1 for r in P if f(r) == obs and r != pv) if (name in ("fisher", "negsum") or name.startswith("negwsum")) else 0
     return ge, amb
+
+
+def liptak_bracket(pv, distr, plus1, tol=1e-9):
+    """double-precision oracle of the documented Liptak rule: numerators (lo, hi) such that the global p-value must be
+    k/(B+c) with lo <= k <= hi; rows within `tol` of the observed statistic may be counted either way"""
+    from scipy.stats import norm
+    B = len(distr); n = len(distr[0]); c = 1 if plus1 else 0
+    P = np.array([[(sum(1 for u in distr if u[j] >= row[j]) + 2 * c) / (B + c) for j in range(n)] for row in distr])
+    P[P >= 1] = 1 - np.finfo(float).eps
+    stat = np.array([np.sum(norm.ppf(1 - row)) for row in P]); obs = np.sum(norm.ppf(1 - np.array([float(t) for t in pv])))
+    return int(np.sum(stat > obs + tol)) + c, int(np.sum(stat >= obs - tol)) + c
